@@ -49,7 +49,7 @@ CODE_OF = {v: k for k, v in VCLS.items()}
 CT = {
     "i8": ctypes.c_int8, "i16": ctypes.c_int16, "i32": ctypes.c_int32, "i64": ctypes.c_int64,
     "u8": ctypes.c_uint8, "u16": ctypes.c_uint16, "u32": ctypes.c_uint32, "u64": ctypes.c_uint64,
-    "f32": ctypes.c_float, "f64": ctypes.c_double, "byte": ctypes.c_ubyte,
+    "f32": ctypes.c_float, "f64": ctypes.c_double, "byte": ctypes.c_ubyte, "char": ctypes.c_char,
 }
 CT_CODE = {v: k for k, v in CT.items() if k != "byte"}  # c_ubyte is c_uint8
 # array.array type codes (value form "array.array")
@@ -628,14 +628,29 @@ def classify_elem(fi: FI, v: Any, in_seq: bool):
     """Classify one element for an array field (or the value of a scalar field)."""
     k = fi.kind
     if isinstance(v, ctypes._SimpleCData):
-        # an instance of the field's own ctype cannot hold an out-of-domain value (inf excepted); other ctypes
-        # scalar types are decided by no document
-        own = CT.get(fi.code if k in ("int", "iarr", "float", "farr") else "byte" if k in ("byte", "bytes") else None)
+        # Scalar ctypes instances are judged on the Python value they hold.  An instance of the field's OWN ctype is a
+        # documented value form (the __set__ signatures list it): in-domain unless it holds +-inf / a non-ASCII char.
+        # Any other ctypes scalar type (wider, other kind, or inside a sequence) is decided by no document as long as the
+        # held value is in the domain (may be refused; if accepted it must read back as that value); a held value
+        # outside the domain must be refused like the plain Python value.
+        own = CT.get(fi.code if k in ("int", "iarr", "float", "farr") else "byte" if k in ("byte", "bytes") else "char" if k == "char" else None)
+        held = v.value
         if own is not None and type(v) is own and not in_seq:
-            if k in ("float", "farr") and not math.isfinite(v.value):
-                return "dc", "ctypes-scalar-nonfinite", None  # the isinstance fast path: decided by no document
-            return "in", "", v.value
-        return "dc", "ctypes-scalar", None
+            if k in ("float", "farr"):
+                if math.isnan(held):
+                    return "dc", "nan", held
+                if math.isinf(held):
+                    return "out", "overflow", None
+                return "in", "", held
+            if k == "char":
+                if held and held[0] > 0x7F:
+                    return "out", "non-ascii", None
+                return "in", "", held.decode("ascii")
+            return "in", "", held
+        verdict, cause, exp = classify_elem(fi, held, in_seq)
+        if verdict == "out":
+            return verdict, cause, None
+        return "dc", "ctypes-scalar", exp
     if k in ("int", "iarr"):
         return classify_int(fi.code, v)
     if k in ("float", "farr"):
